@@ -141,6 +141,9 @@ def scenarios():
                     op.metadata.Pack(_to_pb(state["mcls"], pct=0))
                 return deser(op.SerializeToString()) if deser else op
             histories = [["done"], ["not-done", "done"], ["not-done", "not-done", "not-done", "done"], ["error"], ["not-done", "not-done", "error"]]
+            import os
+            if os.environ.get("VERIF_TIER") == "thorough":
+                histories += [["not-done"] * k + [end] for k in (5, 8, 13) for end in ("done", "error")]
             sync_client = lab_v1.LabClient(transport=LabGrpcTransport(channel=G.fake_channel(handler), credentials=AnonymousCredentials()))
             async_client = lab_v1.LabAsyncClient(transport=LabGrpcAsyncIOTransport(channel=G.fake_aio_channel(handler), credentials=AnonymousCredentials()))
             import re
@@ -200,7 +203,7 @@ def scenarios():
 
 def _drive_sync(fut):
     try:
-        v = fut.result(timeout=30)
+        v = fut.result(timeout=10 ** 6)
         return "result", v, fut.metadata
     except Exception as e:      # noqa
         return "error", e, fut.metadata
@@ -209,7 +212,7 @@ def _drive_sync(fut):
 async def _drive_async(client, name, flat):
     fut = await (getattr(client, name)(**flat) if flat else getattr(client, name)(request={"name": "labs/1"}))
     try:
-        v = await fut.result(timeout=30)
+        v = await fut.result(timeout=10 ** 6)
         return "result", v, fut.metadata
     except Exception as e:      # noqa
         return "error", e, fut.metadata
